@@ -9,22 +9,28 @@ PROPERTIES = ["C18"]
 MANIFEST = {
     "C18": {
         "technique": "Lean 4 proof over a checked-memory model of Unicode.hpp / String::fromHex / fromBase64 / integer conversions "
-                     "(tables, masks and encoder range tests regenerated from the sources by tools/gen_codec.py) + differential "
+                     "(tables, masks, guard and encoder range tests regenerated from the sources by tools/gen_codec.py) + differential "
                      "correspondence of the compiled model with the real code under ASan/UBSan, incl. all 1,114,112 code points",
-        "text": "Theorems (all inputs, no bounds): UTF-8 round trip and agreement with RFC 3629 for every code point < 0x110000; "
-                "length/fromString/isValid never read outside the range they are given, for arbitrary bytes and lengths; fromHex = "
-                "upper-case hex text; fromBase64 inverts the RFC 4648 encoding of every byte string and never indexes its table or "
-                "output buffer out of bounds for any input; integer conversions round-trip over the full range of the four widths "
-                "under the stated libc behaviour.  The model is tied to the current sources on every run: generated tables/guards "
-                "(theorems are stated over them) and identical op lines through the real code (exactly sized heap buffers) and the "
-                "compiled model, with Python codecs/base64/int as independent reference.",
+        "text": "Theorems (all inputs, no bounds; Nstd/Codec/Props.lean): toString(cp) = RFC 3629 encoding and fromString(toString(cp)) = cp "
+                "for every cp < 0x110000 (range lemmas, no enumeration), also in front of arbitrary trailing bytes; empty result above U+10FFFF; "
+                "isValid accepts every concatenation of encoded code points; fromString/isValid never read outside the range they are "
+                "given and length() never leaves the 5-entry offset table, for arbitrary bytes and lengths; fromHex = upper-case hex text of "
+                "every byte string; fromBase64 inverts the RFC 4648 encoding of every byte string and, for EVERY input, reads its table "
+                "below its size and writes inside the reserved buffer (false for the unpatched signed guard: defect D26); the four integer "
+                "round trips over the full range under the stated libc behaviour.  Tie to the current sources on every run: generated "
+                "tables/guards (the theorems are stated over them), identical op lines through the real code (exactly sized heap "
+                "buffers) and the compiled model with Python codecs/base64/int as independent reference, and a test of the Lean "
+                "specifications (Spec.utf8, rfc4648Encode, upperHex, decimal) against Python.",
         "note": "Trusted: Lean kernel + propext/Classical.choice/Quot.sound; the hand translation of the control flow of "
                 "Unicode.hpp and of fromHex/fromBase64 into Nstd/Codec/Model.lean (validated by the correspondence run, not proved); "
-                "the translator tools/gen_codec.py (regex + small C-expression translator); libc behaviour (vsnprintf %d/%u/%lld/%llu, "
-                "strtol/strtoul/strtoll/strtoull, glibc atoi/atoll, LP64) is ASSUMED as Lean definitions, the integer theorems are "
-                "relative to them and the real libc is only exercised by the correspondence run; String's buffer management "
-                "(reserve/resize/append) is not modelled here (area Str); the write of fromHex into its result is modelled as list "
-                "construction.  The exhaustive run over all code points / all short byte strings is a TEST of the tie, not the proof.",
+                "the translator tools/gen_codec.py (regexes + a small C-expression translator; an unrecognised rewrite is reported as a "
+                "broken tie); libc behaviour (vsnprintf %d/%u/%lld/%llu, strtol/strtoul/strtoll/strtoull, glibc atoi/atoll, LP64) is "
+                "ASSUMED as Lean definitions - the integer theorems are relative to them, the real libc is exercised only by the "
+                "correspondence run; String's buffer management (reserve/resize/append, area Str) is not modelled: fromBase64's output "
+                "buffer is a fixed block of inlen bytes with checked writes, fromHex's result is built as a list.  The exhaustive runs "
+                "(all code points, all byte strings <= 3 bytes, all base64 strings <= 4 symbols over 68 symbols) are TESTS of the tie, "
+                "not the proof.  No theorem is partial; isValid is proved bounds-safe and complete for encoder output, not that it "
+                "rejects every ill-formed string (it accepts over-long forms / surrogates / > U+10FFFF by design of the code).",
         "design_ref": "DESIGN.md 3/C18",
     }
 }
@@ -353,6 +359,7 @@ def build_streams(ctx):
 
 
 INNER = {"calls": 0}
+CLASSES = {}
 
 
 def nontrivial(h, out):
@@ -363,6 +370,15 @@ def nontrivial(h, out):
         t, u = l.split(), o.split()
         if t[0] in ("cp", "decpre", "b64pre") and len(u) == 3 and u[0] == t[0]:
             INNER["calls"] += int(t[2]) if t[0] == "cp" else int(u[1])
+        elif t[0] == "dec" and len(u) == 3:
+            k = "dec:accepted-by-isValid" if u[2] == "1" else "dec:rejected-by-isValid"
+            CLASSES[k] = CLASSES.get(k, 0) + 1
+        elif t[0] == "b64" and len(u) == 2:
+            k = "b64:rfc4648-encoding" if b64_ref(unhx(t[1])) is not None else "b64:other-decoded" if u[1] != "-" else "b64:other-empty-result"
+            CLASSES[k] = CLASSES.get(k, 0) + 1
+        elif t[0][0] == "p" and t[0][1:] in INT:
+            k = t[0] + (":in-range" if ref_line(l) is not None else ":out-of-range(libc clamps)")
+            CLASSES[k] = CLASSES.get(k, 0) + 1
     return hashlib.sha1(("\n".join(o for o in out if o != "bad-op")).encode()).hexdigest()
 
 
@@ -425,6 +441,7 @@ def minimise_args(d, harness, driver, budget=200):
 def run_streams(ctx, harness, driver, batches, singles, corpus):
     rng = ctx.rng
     INNER["calls"] = 0
+    CLASSES.clear()
     hb = [[l] for l in batches]
     rng.shuffle(hb)                                  # balance the heavy lines over the worker chunks
     hs = corpus + chunked(singles, 64)
@@ -441,6 +458,8 @@ def run_streams(ctx, harness, driver, batches, singles, corpus):
     ctx.log(f"single-call stream: {len(hs)} histories / {sum(len(h) for h in hs)} lines, {len(d2)} disagreement(s)")
     ctx.cov["op_lines"] = ctx.cov["evaluations"]
     ctx.cov["calls_inside_batches"] = INNER["calls"]
+    ctx.cov["input_classes"] = dict(sorted(CLASSES.items()))
+    ctx.cov["open_statements"] = []
     ctx.cov["evaluations"] += INNER["calls"]       # every call inside a batch is an evaluated input (measured: reported by the harness)
     # a failing batch is expanded into single calls so that the replay names the exact input
     located = []
